@@ -207,6 +207,29 @@ func (e *bigEnv) layoutOf(mk *ssa.MakeSlice, at ssa.Instruction) *X {
 			}
 		}
 		if found < 0 {
+			// a segment right-aligned in a field that starts here: the field is max(32, len(v)) wide and the segment
+			// ends at its end — pad32(v), wherever in the buffer the field lies
+			inner := -1
+			var w linForm
+			for i, sg := range segs {
+				if used[i] || sg.form.Op != "bytes" || len(sg.form.Args) != 1 {
+					continue
+				}
+				width := sg.off.add(sg.n, 1).add(cur, -1)
+				if len(width.coef) == 1 && width.k == 0 && width.coef["max(0x20,len("+stripCopies(sg.form).String()+"))"] == 1 {
+					if inner >= 0 {
+						inner = -2
+						break
+					}
+					inner, w = i, width
+				}
+			}
+			if inner >= 0 {
+				used[inner] = true
+				parts = append(parts, Op("pad32", segs[inner].form.Args[0]))
+				cur = cur.add(w, 1)
+				continue
+			}
 			// one segment left, ending exactly at the end of the buffer, after a gap that make() left zero: the
 			// segment left-padded with zeros to the remaining width
 			left := -1
@@ -292,6 +315,40 @@ func maxPhi(phi *ssa.Phi) (int64, ssa.Value, bool) {
 		}
 		isK2 := func(v ssa.Value) bool { k2, ok := constInt(v); return ok && k2 == k }
 		if ((bo.Op == token.GTR || bo.Op == token.GEQ) && sameLen(bo.X) && isK2(bo.Y)) || ((bo.Op == token.LSS || bo.Op == token.LEQ) && isK2(bo.X) && sameLen(bo.Y)) {
+			return k, call.Call.Args[0], true
+		}
+	}
+	// the mirrored form: `w := len(x); if w < K { w = K }` — the edge carrying len(x) comes straight from the test
+	for i := 0; i < 2; i++ {
+		k, isK := constInt(phi.Edges[i])
+		call, isCall := phi.Edges[1-i].(*ssa.Call)
+		if !isK || !isCall {
+			continue
+		}
+		bi, isBi := call.Call.Value.(*ssa.Builtin)
+		if !isBi || bi.Name() != "len" {
+			continue
+		}
+		gb := b.Preds[i]   // guarded block assigning K
+		tb := b.Preds[1-i] // the test
+		ifi, ok := lastIf(tb)
+		if !ok || len(gb.Preds) != 1 || gb.Preds[0] != tb || tb.Succs[0] != gb || tb.Succs[1] != b {
+			continue
+		}
+		bo, ok := ifi.Cond.(*ssa.BinOp)
+		if !ok {
+			continue
+		}
+		sameLen := func(v ssa.Value) bool {
+			c2, ok := v.(*ssa.Call)
+			if !ok {
+				return false
+			}
+			b2, ok := c2.Call.Value.(*ssa.Builtin)
+			return ok && b2.Name() == "len" && (c2 == call || c2.Call.Args[0] == call.Call.Args[0])
+		}
+		isK2 := func(v ssa.Value) bool { k2, ok := constInt(v); return ok && k2 == k }
+		if ((bo.Op == token.LSS || bo.Op == token.LEQ) && sameLen(bo.X) && isK2(bo.Y)) || ((bo.Op == token.GTR || bo.Op == token.GEQ) && isK2(bo.X) && sameLen(bo.Y)) {
 			return k, call.Call.Args[0], true
 		}
 	}
